@@ -857,6 +857,8 @@ class C16(Check):
         if impl in ("panic", "crash"):
             return corr, f"evaluation crashes (overflow) on {req!r}", feats, req
         if f[0] == "evalpair":
+            if spec == "mirror=DIFF" and corr is None:
+                corr = f"the second position of {req!r} is not Game.mirror (the transformation of theorem eval_mirror) of the first"
             d = kv(impl)
             a, b = int(d["a"]), int(d["b"])
             if a != b:
@@ -901,9 +903,12 @@ class C20(Check):
             return corr, f"SEE crashes in {f[1]}", feats, None
         items = dict(x.split("=") for x in impl.split()) if impl else {}
         sp = dict(x.split("=") for x in spec.split()) if spec not in ("-", "") else {}
+        mir = sp.pop("@mirror", None)
         oracle = None
         if corr is None and model != impl:
             corr = "differs"
+        if corr is None and mir == "DIFF":
+            corr = f"the second position of the request is not Game.mirror (the transformation of theorem see_mirror) of {f[1]}"
         for mv, v in items.items():
             a, b = v.split("/")
             self.distinct.add((f[1], mv)) if False else None
